@@ -14,6 +14,7 @@ int shim_timer_reset(void *);
 int shim_events_run(void);
 int shim_events_spin(int *done);
 void shim_interrupt(void);
+void shim_events_shutdown(void);
 void shim_silence(void);
 #ifdef __cplusplus
 }
